@@ -3,11 +3,12 @@ PROP = {
     "stages": [("auth", "c08", False, ())],
     "assumptions": [
         "covers the enumerated attacker strategies, not cryptographic strength",
-        "the ordering clause is observed at the connection boundary of the real acceptExtraConns/dialExtraConns (extra connections); the primary connection's call order in runTransfer/runICEQUICTransfer is not driven by this check",
+        "the ordering clause is observed at the connection boundary of the real acceptExtraConns/dialExtraConns (extra connections) and, for the primary connection, at the boundary of the real run functions (RunSnapshotReceiver/runTransfer, RunSnapshotSender/runICEQUICTransfer) started in child processes against a fake signaling server: what the honest receiver creates in its output directory and its exit code, which streams and bytes the honest sender sends to its peer",
+        "primary connection: direct (loopback) candidates only, one connection per transfer, one small file; the TURN listener / relayed candidates, the dumb modes and the race_lost retry of the receiver are not driven; an attacker that wins the primary connection while an honest peer is connecting at the same time (two producers racing) is not scheduled, each producer is attacked alone",
     ],
 }
 META = {
-    "technique": "runtime monitor: scripted attackers (rogue dialer/listener, relay between two TLS sessions, replay, reflection, bit flips) against the real authenticateTransport over loopback QUIC; boundary recording of streams/bytes before authentication on extra connections",
-    "text": "Exploration over attacker strategies: same code must pass both ways; different codes, random proofs, replays from another TLS session, reflection, role swaps, a verbatim relay between two TLS sessions and every single-bit flip / truncation of either 50-byte message must be rejected by the honest end; the real extra-connection accept/dial paths must keep no unauthenticated connection and exchange nothing but the auth stream before authentication.",
-    "note": "Trusted: TLS exporter of quic-go, crypto/hmac. The primary connection's ordering is checked only for the shared authenticateTransport call, not at the network boundary of the real binaries.",
+    "technique": "runtime monitor: scripted attackers (rogue dialer/listener, relay between two TLS sessions, replay, reflection, bit flips) against the real authenticateTransport over loopback QUIC; boundary recording of streams/bytes before authentication on extra connections; the real receiver and sender run functions in child processes with a peer without the join code on every producer of the primary connection",
+    "text": "Exploration over attacker strategies: same code must pass both ways; different codes, random proofs, replays from another TLS session, reflection, role swaps, a verbatim relay between two TLS sessions and every single-bit flip / truncation of either 50-byte message must be rejected by the honest end; the real extra-connection accept/dial paths must keep no unauthenticated connection and exchange nothing but the auth stream before authentication; the real receiver (connection it accepts, connection it dials itself) and the real sender (connection it dials) must not serve a primary connection whose peer skips authentication, uses another code or a garbage proof, or sends the payload while authenticating - nothing created in the output directory, no exit 0, no stream besides the auth stream, no control magic - and must serve a same-code peer on each of these paths.",
+    "note": "Trusted: TLS exporter of quic-go, crypto/hmac. The signaling server of the primary-connection cases is a fake played by the harness (manifest offer/accept, transfer start, candidates), not thruserv.",
 }
